@@ -617,6 +617,9 @@ def run(ctx, drv):
         'timeouts never expire in the scenarios; Torrent.infohash of a served torrent is 40 lower-case hex digits',
         'values are str (non-str values go through str(value) first, as in the setters)',
     ]
+    for c in mg.corpus_cases('C14'):          # past failures first
+        ctx.dist['corpus'] += 1
+        _eval_case(ctx, drv, c)
     eval_hash(ctx, drv, hash_cases(ctx))
     eval_history(ctx, drv, history_cases(ctx))
     eval_xl(ctx, drv)
@@ -634,8 +637,7 @@ def search(ctx, drv):
     eval_getinfo(ctx, drv, getinfo_scenarios(ctx, scale=3.0))
 
 
-def replay(ctx, drv, rp):
-    c = rp['case']
+def _eval_case(ctx, drv, c):
     k = c.get('kind')
     if k == 'hash':
         if 'history' in c:
@@ -654,4 +656,9 @@ def replay(ctx, drv, rp):
         # xl / urls cases carry Python values by repr only: re-run the whole (deterministic) stream
         eval_xl(ctx, drv)
         eval_urls(ctx, drv)
-    return {'fails': bool(ctx.violations or ctx.known), 'violations': ctx.violations, 'known': list(ctx.known)}
+
+
+def replay(ctx, drv, rp):
+    _eval_case(ctx, drv, rp['case'])
+    return {'fails': bool(ctx.violations or ctx.known or ctx.corr_breaks), 'violations': ctx.violations,
+            'known': list(ctx.known), 'corr_breaks': ctx.corr_breaks}
